@@ -279,6 +279,7 @@ int scn_main(int argc, char **argv) {
     else if (!strcmp(t[0], "inst") && n >= 2) { int k = atoi(t[1]) & (NI - 1); save_inst(cur_inst); load_inst(k); cur_inst = k; printf("inst %d\n", k); }
     else if (!strcmp(t[0], "fill") && n >= 2) sm_fill = atoi(t[1]) & 255;
     else if (!strcmp(t[0], "trace") && n >= 2) sm_trace = atoi(t[1]);
+    else if (!strcmp(t[0], "recycle") && n >= 2) sm_recycle = atoi(t[1]);
     else if (!strcmp(t[0], "hexout") && n >= 2) hexout = atoi(t[1]);
     else if (!strcmp(t[0], "edgecap") && n >= 2) edge_cap = strtoull(t[1], NULL, 10);
     else if (!strcmp(t[0], "fault") && n >= 3 && sm_nfaults < 8) {
